@@ -34,7 +34,7 @@ func init() {
 }
 
 const modA = `module a { namespace "urn:a"; prefix a;
- identity base; identity one { base base; } identity dup { base base; }
+ identity base; identity one { base base; } identity dup { base base; } identity lonely;
  typedef idt { type identityref { base base; } }
  container c {
   leaf i8 { type int8; } leaf u64 { type uint64; } leaf i64 { type int64; }
@@ -42,6 +42,8 @@ const modA = `module a { namespace "urn:a"; prefix a;
   leaf s { type string; } leaf en { type enumeration { enum x; enum y; } }
   leaf idr { type identityref { base base; } }
   leaf un { type union { type int8; type enumeration { enum auto; } } }
+  leaf us { type union { type string { pattern "[a-z]+"; } type string { length "5"; } } }
+  leaf idn { type identityref { base lonely; } }
   leaf-list ll { type string; ordered-by user; } leaf-list ls { type uint8; }
   list li { key k; ordered-by user; leaf k { type string; } leaf v { type int8; } }
   list ls2 { key k; leaf k { type uint8; } leaf w { type string; } }
@@ -87,6 +89,7 @@ func slots() [][]*D {
 		{lf("idrb", "two"), lf("idrb", "a:one"), lf("idrb", "dup"), lf("idrb", "a:dup")},
 		{lf("idrt", "two"), lf("idrt", "a:one"), lf("idrt", "dup"), lf("idrt", "a:dup")}, // identityref through a typedef of the other module
 		{lf("un", "5"), lf("un", "auto")},
+		{lf("us", "abc"), lf("us", "12345")}, // a union of restricted strings only
 		{lf("ll", "b", "a"), lf("ll", "a"), lf("ll", "z", "y", "x"), lf("ll", "x\\ty", "\\\\")},
 		{lf("ls", "3", "1", "2"), lf("ls", "255")},
 		{{Name: "li", Kids: []*D{entry("k2", lf("v", "1")), entry("k1")}}, {Name: "li", Kids: []*D{entry("only", lf("v", "-5"))}}, {Name: "li", Kids: []*D{entry("k\\n1"), entry("k 2\"")}}},
@@ -771,6 +774,35 @@ func run(c *engine.Ctx) {
 			b, p := encode(ms, enc, t.node())
 			if p != nil || !json.Valid(b) {
 				c.Report(engine.Violation{Key: "malformed-json-output:" + encNames[enc], Witness: show(t), Detail: fmt.Sprintf("panic=%v output=%s", p, b), Harness: "roundtrip", Replay: engine.JSON(rec{Tree: t, Enc: encNames[enc]})})
+			}
+		}
+	}
+	// values that their type refuses, one leaf at a time, in every encoding: an error, whatever the
+	// type has to say about what it would have accepted (us, idn: nothing)
+	for li, lv := range [][2]string{{"us", "1"}, {"us", "ABCDEF"}, {"idn", "x"}, {"idn", "lonely"}, {"idn", "a:lonely"}, {"en", "z"}, {"un", "zz"}, {"b", "True"}, {"i8", "128"}, {"d", "1.234"}, {"idr", "nosuch"}, {"ls", "256"}, {"e", "x"}} {
+		for _, enc := range encs {
+			var in string
+			switch enc {
+			case encoding.XML:
+				in = "<data><c xmlns=\"urn:a\"><" + lv[0] + ">" + lv[1] + "</" + lv[0] + "></c></data>"
+			case encoding.RFC7951:
+				in = "{\"a:c\":{\"" + lv[0] + "\":\"" + lv[1] + "\"}}"
+			default:
+				in = "{\"c\":{\"" + lv[0] + "\":\"" + lv[1] + "\"}}"
+			}
+			id := fmt.Sprintf("refused:%d:%s", li, encNames[enc])
+			if !c.Owns(id) || !c.Case(id) {
+				continue
+			}
+			c.Add("states", 1)
+			c.Nontrivial()
+			vs, decoded := checkInput(ms, enc, []byte(in))
+			if decoded {
+				vs = append(vs, engine.Violation{Key: "refused-value-decoded:" + lv[0], Witness: in, Detail: "the decoder accepts a value outside the leaf's type", Harness: "input", Replay: engine.JSON(rec{Enc: encNames[enc], Input: strconv.Quote(in)})})
+			}
+			c.Outcome(fmt.Sprintf("refused:%s:decoded=%v:viol=%v", encNames[enc], decoded, len(vs) > 0))
+			for _, v := range vs {
+				c.Report(v)
 			}
 		}
 	}
